@@ -195,6 +195,11 @@ def check(ctx):
                 if st_["k"] == "assign" and "agg" in st_["rv"] and st_["rv"]["agg"].get("adt") == ty and flag in st_["rv"]["agg"].get("fields", []):
                     opf = st_["rv"]["agg"]["ops"][st_["rv"]["agg"]["fields"].index(flag)]
                     okd = (lib.const_val(opf) == 0) if opt_flag is None else lib.writes_none(d, {"use": opf})
+                    if not okd:
+                        # `..Default::default()` / derived Default: bool::default() is false, Option::default() is None
+                        os_ = origins(d, opf)
+                        okd = bool(os_) and all(o[0] == "call" and "efault" in mir.fn_name(op_fn(d.blocks[o[1]]["term"]["func"]) or {"path": ""})
+                                                and not d.blocks[o[1]]["term"]["args"] for o in os_)
             ctx.check(okd, "C03.b", "%s::default:starts-not-reacting" % tname, "%s:%d" % (d.file, d.line), "the flag is false / None in a fresh tracker",
                       "a fresh %s already reports is_reacting() == true: readers outside any reaction would see (stale) event data" % tname)
         # end clears the flag on every path
